@@ -62,7 +62,9 @@ _SAFE_METHODS = {
 _SAFE_BUILTINS = {'sorted': sorted, 'list': list, 'set': set, 'dict': dict, 'tuple': tuple, 'len': len, 'str': str,
                   'int': int, 'range': range, 'min': min, 'max': max, 'sum': sum, 'frozenset': frozenset,
                   'abs': abs, 'bool': bool, 'reversed': lambda x: list(reversed(x)), 'enumerate': lambda x: list(enumerate(x)),
-                  'zip': lambda *a: list(zip(*a)), 'any': any, 'all': all, 'ord': ord, 'chr': chr, 'divmod': divmod, 'float': float}
+                  'zip': lambda *a: list(zip(*a)), 'any': any, 'all': all, 'ord': ord, 'chr': chr, 'divmod': divmod, 'float': float,
+                  'filter': lambda f, it: [x for x in it if (f(x) if f is not None else x)], 'map': lambda f, *its: [f(*xs) for xs in zip(*its)],
+                  'next': lambda it, *d: (list(it)[0] if list(it) else d[0])}
 
 
 class ConstEval:
@@ -148,6 +150,20 @@ class ConstEval:
         ev = lambda n: self.eval(n, mod, cls, env)
         if isinstance(node, ast.Constant):
             return node.value
+        if isinstance(node, ast.Lambda):
+            a = node.args
+            if a.vararg or a.kwarg or a.kwonlyargs or a.defaults:
+                raise NotConst('lambda signature')
+            names = [x.arg for x in a.posonlyargs + a.args]
+            outer = dict(env)
+
+            def fn(*args, _n=node, _names=names, _outer=outer):
+                if len(args) != len(_names):
+                    raise NotConst('lambda arity')
+                e2 = dict(_outer)
+                e2.update(zip(_names, args))
+                return self.eval(_n.body, mod, cls, e2)
+            return fn
         if isinstance(node, ast.Name):
             if node.id in env:
                 return env[node.id]
@@ -359,11 +375,35 @@ class ConstEval:
                     return _SAFE_BUILTINS[f.id](*args, **kw)
                 except Exception as e:
                     raise NotConst(f'{f.id} failed: {e}')
+            if b is not None and b.kind == 'def' and not node.keywords and not b.value.decorators:
+                # a kernpy function that is local bindings + ONE returned expression: interpreted, never run
+                fi = b.value
+                body = list(fi.node.body)
+                if body and isinstance(body[0], ast.Expr) and isinstance(body[0].value, ast.Constant) and isinstance(body[0].value.value, str):
+                    body = body[1:]
+                a_ = fi.node.args
+                if body and isinstance(body[-1], ast.Return) and body[-1].value is not None and not (a_.vararg or a_.kwarg or a_.kwonlyargs) \
+                        and len(node.args) == len(a_.posonlyargs + a_.args) \
+                        and all(isinstance(st, ast.Assign) and len(st.targets) == 1 and isinstance(st.targets[0], ast.Name) for st in body[:-1]):
+                    e2 = dict(zip([x.arg for x in a_.posonlyargs + a_.args], [ev(x) for x in node.args]))
+                    key = ('call', fi.qualname, repr(sorted((k, repr(v)[:200]) for k, v in e2.items())))
+                    def run():
+                        for st in body[:-1]:
+                            e2[st.targets[0].id] = self.eval(st.value, fi.module, fi.cls, e2)
+                        return self.eval(body[-1].value, fi.module, fi.cls, e2)
+                    return self._guard(key, run)
             if b is not None and b.kind == 'external' and b.value in ('copy.deepcopy', 'copy.copy'):
                 return ev(node.args[0])
             if b is not None and b.kind == 'external' and b.value in ('collections.OrderedDict',):
                 return OrderedDict(ev(node.args[0])) if node.args else OrderedDict()
             raise NotConst(f'call {f.id}')
+        if isinstance(f, ast.Name) and f.id in env and callable(env[f.id]) and not node.keywords:
+            try:
+                return env[f.id](*[ev(a) for a in node.args])
+            except NotConst:
+                raise
+            except Exception as e:
+                raise NotConst(f'call of {f.id} failed: {e}')
         if isinstance(f, ast.Attribute):
             # copy.deepcopy(x)
             r = self.prog.resolve_expr(mod, f, cls) if isinstance(f.value, ast.Name) and f.value.id not in env else None
